@@ -217,6 +217,10 @@ func (c *ctx) runLines(path string) {
 			if _, _, k := c.h.opDec(u, in, parseInto(u, tok[3]), true); k != nil {
 				ks = append(ks, k)
 			}
+		case "arg":
+			if tok[1] == "decstruct" {
+				c.h.emit("arg decstruct -> " + decStructByValue())
+			}
 		case "use":
 			c.h.opUse(universe.BySid(sid))
 		case "rt":
